@@ -18,7 +18,7 @@ SPEC = {
     "assumptions": ["algosdk.abi is the ARC-4 reference codec", "reference AVM (vlib/avm.py) semantics, calibrated by setup gates"],
     "min_evaluations": {"quick": 3000, "thorough": 40000},
     "must_reach": ["access_ok", "oob_failed_or_rejected", "getter_ok", "length_ok", "windowed_decode"],
-    "shard_timeout": {"quick": 900, "thorough": 7200},
+    "shard_timeout": {"quick": 2400, "thorough": 14400},
 }
 
 
